@@ -102,6 +102,7 @@ class SimPath:
         elif p in fs.dirs:
             n = 4096
         else:
+            fs._enotdir(p, path)
             raise FileNotFoundError(errno.ENOENT, "No such file or directory", path)
         fs.trace.append(("getsize", p, n))
         return n
@@ -186,6 +187,14 @@ class SimFS:
         if self.fault_hook is not None:
             self.fault_hook(kind, path)
 
+    def _enotdir(self, p, path):
+        """ENOTDIR when a proper ancestor of p is a regular file (as the kernel reports it)."""
+        q = posixpath.dirname(p)
+        while q and q != "/":
+            if q in self.files:
+                raise NotADirectoryError(errno.ENOTDIR, "Not a directory", path)
+            q = posixpath.dirname(q)
+
     def mark(self, *what):
         """Harness marker in the trace (e.g. ('ret', key) when a set returned)."""
         self.trace.append(("mark",) + tuple(what))
@@ -196,6 +205,7 @@ class SimFS:
             self._y("open")
             if p in self.dirs:
                 raise IsADirectoryError(errno.EISDIR, "Is a directory", path)
+            self._enotdir(p, path)
             if p not in self.files:
                 raise FileNotFoundError(errno.ENOENT, "No such file or directory", path)
             fd = self.next_fd
@@ -209,8 +219,7 @@ class SimFS:
                 raise IsADirectoryError(errno.EISDIR, "Is a directory", path)
             parent = posixpath.dirname(p)
             if parent not in self.dirs:
-                if parent in self.files:
-                    raise NotADirectoryError(errno.ENOTDIR, "Not a directory", path)
+                self._enotdir(p, path)
                 raise FileNotFoundError(errno.ENOENT, "No such file or directory", path)
             self._fault("creat", p)
             if p in self.files:
